@@ -11,7 +11,8 @@ PID = "C01"
 RULE = ("well-typed programs built by construction (type-directed chunks over stack ops, DIP n, IF/IF_NONE/IF_LEFT/"
         "IF_CONS with unified branches, counted LOOP/LOOP_LEFT, ITER/MAP over list/set/map, LAMBDA/EXEC/APPLY, PAIR n/"
         "UNPAIR n/GET n/UPDATE n, option/or, sets/maps, CONCAT/SLICE/SIZE, PACK/UNPACK, arithmetic, COMPARE, hashes, "
-        "environment instructions, tickets, FAILWITH; <=8 chunks quick / <=20 thorough, nesting <=2/3) x 0..3 input "
+        "environment instructions, tickets, LAMBDA_REC, CAST/RENAME, FAILWITH; <=8 chunks quick / <=20 thorough, nesting <=2/3; plus a "
+        "focused tier of 1-3 chunk programs whose first chunk kind is drawn uniformly from all 25 kinds) x 0..3 input "
         "values x environments (amount, balance, sender, source, now, level, chain id, self address). Oracle: "
         "differential against an independent reference interpreter validated on Octez' opcode vectors: same final "
         "stack (types and values slot by slot) or the same kind of failure with the same FAILWITH payload. "
@@ -44,9 +45,13 @@ def classify(v):
 
 
 @st.composite
-def cases(draw, size, depth, profile=None):
+def cases(draw, size, depth, profile=None, focused=False):
     profile = profile or draw(st.sampled_from(["core", "core", "core", "combs", "collections"]))
-    prog = draw(gp.programs(size=size, depth=depth, profile=profile))
+    force = None
+    if focused:  # short programs that start with a prescribed chunk kind: every instruction family gets its share of cases
+        force = [draw(st.sampled_from(gp.ALL_KINDS))] + ([draw(st.sampled_from(["usetop", "stack", "compare"]))] if draw(st.booleans()) else [])
+        size = (len(force), len(force) + 1)
+    prog = draw(gp.programs(size=size, depth=depth, profile=profile, force=force))
     return {"inputs": prog["inputs"], "code": prog["code"], "env": xc.env_to_json(draw(gp.env_strategy())),
             "chunks": prog["chunks"]}
 
@@ -73,6 +78,7 @@ def run(h):
                                                "instructions outside its scope)" % (passed, skipped))
     size, depth = ((1, 8), 2) if h.quick else ((1, 20), 3)
     h.run_given(lambda: cases(size, depth), _prop, h.n(60, 6000), shards=16, classify=classify)
+    h.run_given(lambda: cases(size, depth, focused=True), _prop, h.n(120, 6000), shards=16, classify=classify, name="focused")
     ill = h.stats.extra.get("generator_illtyped", 0)
     h.coverage_extra["instruction_histogram"] = {k[6:]: v for k, v in sorted(h.stats.extra.items()) if k.startswith("instr:")}
     for k in [k for k in h.stats.extra if k.startswith("instr:")]:
